@@ -44,6 +44,32 @@ fn decision(o: &Out<bool>) -> &'static str {
     }
 }
 
+/// C12: which artefact is sent through canonical serialization on the way, and in which mode
+fn ser_of(b: &Value) -> Option<(String, i64)> {
+    let a = b["stmt"]["ser"].as_array()?;
+    Some((a[0].as_str()?.to_string(), a[1].as_i64()?))
+}
+fn wants(ser: &Option<(String, i64)>, what: &str) -> Option<i64> {
+    match ser {
+        Some((a, m)) if a == what || a == "all" => Some(*m),
+        _ => None,
+    }
+}
+fn rt<T: ark_serialize::CanonicalSerialize + ark_serialize::CanonicalDeserialize + Clone>(
+    x: &T,
+    ser: &Option<(String, i64)>,
+    what: &str,
+    errs: &mut Vec<String>,
+) -> T {
+    match wants(ser, what) {
+        Some(m) => {
+            let mut n = 0usize;
+            crate::session::roundtrip(x, m, what, errs, &mut n).unwrap_or_else(|| x.clone())
+        }
+        None => x.clone(),
+    }
+}
+
 #[derive(Default)]
 struct DObs {
     batch: String,
@@ -53,6 +79,7 @@ struct DObs {
     claims_true: bool,
     equal_lens: bool,
     setup: String,
+    ser_errors: Vec<String>,
 }
 
 // ------------------------------------------------------------------------------------------------ kzg10
@@ -101,11 +128,22 @@ fn kzg_pp(maxd: usize) -> Result<std::sync::Arc<kzg10::UniversalParams<E>>, Stri
 }
 
 fn kzg_ctx(b: &Value) -> Result<KzgCtx, String> {
+    let mut e = vec![];
+    kzg_ctx_ser(b, &None, &mut e)
+}
+
+fn kzg_ctx_ser(b: &Value, ser: &Option<(String, i64)>, errs: &mut Vec<String>) -> Result<KzgCtx, String> {
     let maxd = geti(&b["cfg"], "maxd") as usize;
     let sup = geti(&b["cfg"], "sup") as usize;
     let pp = kzg_pp(maxd)?;
+    let pp: kzg10::UniversalParams<E> = rt(&*pp, ser, "pp", errs);
     let powers_g = pp.powers_of_g[..=sup].to_vec();
     let powers_gamma: Vec<G1Affine> = (0..=sup).map(|i| pp.powers_of_gamma_g[&i]).collect();
+    let (powers_g, powers_gamma) = {
+        let pw = kzg10::Powers::<E> { powers_of_g: Cow::Owned(powers_g), powers_of_gamma_g: Cow::Owned(powers_gamma) };
+        let pw = rt(&pw, ser, "powers", errs);
+        (pw.powers_of_g.to_vec(), pw.powers_of_gamma_g.to_vec())
+    };
     let vk = kzg10::VerifierKey {
         g: pp.powers_of_g[0],
         gamma_g: pp.powers_of_gamma_g[&0],
@@ -114,6 +152,7 @@ fn kzg_ctx(b: &Value) -> Result<KzgCtx, String> {
         prepared_h: pp.prepared_h.clone(),
         prepared_beta_h: pp.prepared_beta_h.clone(),
     };
+    let vk = rt(&vk, ser, "vk", errs);
     let mut ctx = KzgCtx { powers_g, powers_gamma, vk, polys: vec![], comms: vec![], rands: vec![] };
     for (i, ps) in arr(b, "polys").iter().enumerate() {
         let p = uni_poly(gets(ps, "cls"), i + 1, sup, "direct-kzg-poly");
@@ -124,8 +163,8 @@ fn kzg_ctx(b: &Value) -> Result<KzgCtx, String> {
         });
         match r {
             Out::Ok((c, rd)) => {
-                ctx.comms.push(c);
-                ctx.rands.push(rd);
+                ctx.comms.push(rt(&c, ser, "comm", errs));
+                ctx.rands.push(rt(&rd, ser, "rand", errs));
                 ctx.polys.push(p);
             }
             o => return Err(format!("commit of polynomial {} failed: {} {}", i + 1, o.class(), o.detail())),
@@ -209,9 +248,12 @@ fn kzg_singles(ctx: &KzgCtx, l: &KzgLists) -> Vec<String> {
 }
 
 fn run_kzg(b: &Value) -> Result<DObs, String> {
-    let ctx = kzg_ctx(b)?;
-    let l = kzg_lists(&ctx, &b["stmt"])?;
-    let mut o = DObs { setup: "ok".into(), claims_true: l.claims_true, equal_lens: l.equal, ..Default::default() };
+    let ser = ser_of(b);
+    let mut errs = vec![];
+    let ctx = kzg_ctx_ser(b, &ser, &mut errs)?;
+    let mut l = kzg_lists(&ctx, &b["stmt"])?;
+    l.proofs = l.proofs.iter().map(|p| rt(p, &ser, "proof", &mut errs)).collect();
+    let mut o = DObs { setup: "ok".into(), claims_true: l.claims_true, equal_lens: l.equal, ser_errors: errs, ..Default::default() };
     let r1 = guarded(|| K::batch_check(&ctx.vk, &l.comms, &l.points, &l.vals, &l.proofs, &mut rng_for("direct-kzg-vrng", 1)));
     let r2 = guarded(|| K::batch_check(&ctx.vk, &l.comms, &l.points, &l.vals, &l.proofs, &mut rng_for("direct-kzg-vrng", 2)));
     o.batch = decision(&r1).into();
@@ -328,11 +370,16 @@ fn ml_poly(cls: &str, idx: usize, nv: usize) -> DenseMultilinearExtension<Fr> {
 fn run_ml(b: &Value) -> Result<DObs, String> {
     let nv = geti(&b["cfg"], "nv") as usize;
     let sup = geti(&b["cfg"], "sup") as usize;
+    let ser = ser_of(b);
+    let mut errs = vec![];
     let pp = MultilinearPC::<E>::setup(nv, &mut rng_for("direct-ml-setup", nv as u64));
+    let pp = rt(&pp, &ser, "pp", &mut errs);
     let (ck, vk) = match guarded_plain(|| MultilinearPC::<E>::trim(&pp, sup)) {
         Out::Ok(k) => k,
         o => return Err(format!("trim failed: {}", o.detail())),
     };
+    let ck = rt(&ck, &ser, "ck", &mut errs);
+    let vk = rt(&vk, &ser, "vk", &mut errs);
     let polys: Vec<_> = arr(b, "polys").iter().enumerate().map(|(i, ps)| ml_poly(gets(ps, "cls"), i + 1, sup)).collect();
     let comms: Vec<multilinear_pc::data_structures::Commitment<E>> = polys.iter().map(|p| MultilinearPC::<E>::commit(&ck, p)).collect();
     let pt_of = |id: i64| -> Vec<Fr> {
@@ -378,13 +425,15 @@ fn run_ml(b: &Value) -> Result<DObs, String> {
         m => return Err(format!("unknown proof mutation {}", m)),
     }
     let _: &Vec<G2Affine> = &proof.proofs;
+    let proof = rt(&proof, &ser, "proof", &mut errs);
+    let comm = rt(&comm, &ser, "comm", &mut errs);
     let r = guarded_plain(|| MultilinearPC::<E>::check(&vk, &comm, &pt, val, &proof));
     let r: Out<bool> = match r {
         Out::Ok(b) => Out::Ok(b),
         Out::Err(e) => Out::Err(e),
         Out::Panic(e) => Out::Panic(e),
     };
-    let mut o = DObs { setup: "ok".into(), equal_lens: true, ..Default::default() };
+    let mut o = DObs { setup: "ok".into(), equal_lens: true, ser_errors: errs, ..Default::default() };
     o.batch = decision(&r).into();
     o.batch2 = o.batch.clone();
     o.detail = r.detail();
@@ -533,6 +582,9 @@ pub fn run_line(b: &Value) -> Value {
             return if want == "accept" { mk("violation", format!("honest session failed: {}", e), &o) } else { mk("skip", e, &o) };
         }
     };
+    if !o.ser_errors.is_empty() {
+        return mk("violation", format!("serialization: {}", o.ser_errors[0]), &o);
+    }
     let acc = o.batch == "accept";
     let singles_and = o.singles.iter().all(|s| s == "accept");
     let single_plan = want == "not_accept_single";
